@@ -156,6 +156,7 @@ type Sim struct {
 	siteCnt  map[int32]int64
 	chans    map[uintptr]*simChan
 	noted    map[interface{}]int
+	atomic   int
 }
 
 var (
@@ -387,7 +388,7 @@ func (s *Sim) drawSlice() {
 // (check under the lock, act after it) live, so the scheduler may end the slice
 // there.  One decision per release (0 = carry on).
 func (s *Sim) AfterRelease() {
-	if s.live < 2 {
+	if s.live < 2 || s.atomic > 0 {
 		return
 	}
 	p := s.cfg.Policy.AfterUnlock
@@ -442,8 +443,24 @@ func P(site int32) {
 // Tick is a probe issued by the drop-in primitives before each operation.
 func (s *Sim) Tick() { s.tick() }
 
+// Atomic runs f without offering the baton at probes (harness oracles that take a
+// snapshot through instrumented accessors).  Blocking inside f still switches.
+func Atomic(f func()) {
+	s := active()
+	if s == nil {
+		f()
+		return
+	}
+	s.atomic++
+	defer func() { s.atomic-- }()
+	f()
+}
+
 func (s *Sim) tick() {
 	s.probes++
+	if s.atomic > 0 {
+		return
+	}
 	if s.probes > s.max/2 {
 		// second half of the budget: remember where the time goes so that a
 		// non-termination report names the dominant function, not a random line
